@@ -892,7 +892,7 @@ fn placement() -> impl Strategy<Value = Place> {
 }
 
 /// (layout selector, two positions as fractions, density selector, rotate)
-fn byte_case(max_len: usize) -> impl Strategy<Value = ByteCase> {
+pub fn byte_case(max_len: usize) -> impl Strategy<Value = ByteCase> {
     (
         needle_set(),
         hay_len(max_len),
